@@ -317,6 +317,20 @@ where
     let guard_sz = 0;
     let size = guard_sz + stack_sz;
 
+    // Map the stack before anything else is set up, if this fails there is nothing to release.
+    let map_ptr = unsafe {
+        mmap(
+            None,
+            NonZeroUsize::new_unchecked(size),
+            MemoryProtection::PROT_READ | MemoryProtection::PROT_WRITE,
+            MapRequiredFlag::MapPrivate,
+            MapAdditionalFlags::MAP_ANONYMOUS,
+            None,
+            0,
+        )?
+    };
+    #[cfg(tiny_std_verif)]
+    crate::verif_thread::point(crate::verif_thread::SPAWN_STACK, map_ptr);
     let tsm = unsafe { Tsm::init::<T>() };
     #[cfg(tiny_std_verif)]
     crate::verif_thread::point(crate::verif_thread::SPAWN_TSM, tsm.0 as usize);
@@ -372,19 +386,6 @@ where
     // 2. We can't refer to the box we create by address on the stack, because we will risk accessing
     // it after this part of the stack is destroyed/overwritten/whatever.
 
-    let map_ptr = unsafe {
-        mmap(
-            None,
-            NonZeroUsize::new_unchecked(size),
-            MemoryProtection::PROT_READ | MemoryProtection::PROT_WRITE,
-            MapRequiredFlag::MapPrivate,
-            MapAdditionalFlags::MAP_ANONYMOUS,
-            None,
-            0,
-        )?
-    };
-    #[cfg(tiny_std_verif)]
-    crate::verif_thread::point(crate::verif_thread::SPAWN_STACK, map_ptr);
     // Stack grows downward
     let mut stack = map_ptr + size;
     // shift down a bit, unsure exactly why, doesn't really matter if we do or don't actually
